@@ -517,6 +517,17 @@ Definition b_preceding (r : breader) : result N :=
     first <- seg_at (b_segs r) 0 ;;
     if (b_line r =? 0) && (s_start (b_pos r) <=? s_start first) then Ok 10%N
     else
+    (* after the fix: at the head of a following line, the last rune of the previous line *)
+    cur <- (if (0 <? b_line r) && (b_line r <? b_nsegs r) then seg_at (b_segs r) (b_line r) else Ok first) ;;
+    if (0 <? b_line r) && (b_line r <? b_nsegs r) && (s_start (b_pos r) <=? s_start cur) then
+      prev <- seg_at (b_segs r) (b_line r - 1) ;;
+      if (s_start prev <? s_stop prev) && (s_stop prev <=? zlen (b_src r)) then
+        if s_start prev <? 0 then Panic
+        else
+        let v := firstn (Z.to_nat (s_stop prev - s_start prev)) (skipn (Z.to_nat (s_start prev)) (b_src r)) in
+        Ok (decode_last_rune v)
+      else Ok 10%N
+    else
       let l := zlen (b_src r) in
       let i0 := s_start (b_pos r) - 1 in
       (* for ; i < l && i >= 0; i-- { if RuneStart(source[i]) break } *)
